@@ -23,6 +23,8 @@ pub struct FaultDb {
     pub trace: Arc<Mutex<Vec<String>>>,
     /// the last `TransactionCommit` batch handed to the database
     pub last_commit: Arc<Mutex<Option<Vec<DbRecord>>>>,
+    /// a fault was really injected since the counters were reset
+    pub fired: Arc<AtomicBool>,
 }
 
 impl FaultDb {
@@ -36,6 +38,7 @@ impl FaultDb {
         let n = self.count.fetch_add(1, Ordering::SeqCst) as i64;
         self.trace.lock().unwrap().push(kind.to_string());
         if self.fail_next.swap(false, Ordering::SeqCst) || self.fail_at.load(Ordering::SeqCst) == n {
+            self.fired.store(true, Ordering::SeqCst);
             return Err(StorageError::Connection(format!("injected fault at storage operation {n} ({kind})")));
         }
         Ok(())
@@ -45,6 +48,7 @@ impl FaultDb {
         self.count.store(0, Ordering::SeqCst);
         self.fail_at.store(-1, Ordering::SeqCst);
         self.fail_next.store(false, Ordering::SeqCst);
+        self.fired.store(false, Ordering::SeqCst);
         self.trace.lock().unwrap().clear();
     }
 
